@@ -47,6 +47,10 @@ def isAlpha (c : UInt8) : Bool := (65 ≤ c.toNat && c.toNat ≤ 90) || (97 ≤ 
 /-- `BasePin.is_valid` (device policy: 8 alphanumerics, at least one letter) -/
 def isValidPin (p : Bytes) : Bool := p.all isAlnum && p.length == 8 && p.any isAlpha
 
+/-- `BasePin.generate_pin`: 8-character draws are repeated until one satisfies the policy; the random
+    source is the list of successive draws -/
+def generatePin (draws : List Bytes) : Option Bytes := draws.find? isValidPin
+
 def isWs (c : UInt8) : Bool := c.toNat == 0x20 || (0x09 ≤ c.toNat && c.toNat ≤ 0x0D)
 
 /-- `bytes.strip()` -/
